@@ -40,7 +40,7 @@ func vfpKinds(ms *MetadataStore, from int) []string {
 	es := ms.OpLog().Values().Slice()
 	for _, e := range es[from:] {
 		k := "?"
-		if me, _, err := openMetadataEntry(ms.OpLog(), e, ms.group); err == nil {
+		if me, _, err := vfOpenMetadataEntry(ms.OpLog(), e, ms.group); err == nil {
 			k = me.Metadata.EventType.String()
 		}
 		out = append(out, k)
